@@ -21,7 +21,7 @@ tools/props/*: kernel validation):  `np.min(v)` of a row vector under a comparis
 is translated per row (`e >= v`, the L layer takes the disjunction over rows); `len(v)` of a row
 vector in a boolean context is `true` (a row exists).
 """
-import ast, os, re, textwrap
+import ast, copy, os, re, textwrap
 
 INT, BOOL, OPT = "Int", "Bool", "Option Int"
 
@@ -483,6 +483,150 @@ def find_function(tree, qual):
     return node if isinstance(node, ast.FunctionDef) else None
 
 
+
+# ---------------------------------------------------------------------------------------------------
+# Inlining of helper methods (extract-method refactorings): a call `self.helper(args)` of a method of the
+# same class that is not itself a kernel is replaced, at the Python AST level, by the helper's body, so that
+# the translated kernel keeps denoting the same arithmetic whether or not pieces of it live in helpers.
+#   x = self.helper(a, b)        -> helper body with `return e` turned into `x = e` (return-trees only)
+#   return self.helper(a, b)     -> helper body (its returns become the kernel's returns)
+# Parameters are substituted by the argument when the argument is a plain name / attribute path and the
+# helper never assigns to the parameter; otherwise they are bound to a fresh local first.  Locals of the
+# helper are renamed apart.
+
+class _Rename(ast.NodeTransformer):
+    def __init__(self, names, subst):
+        self.names, self.subst = names, subst
+
+    def visit_Name(self, n):
+        if n.id in self.subst:
+            return copy.deepcopy(self.subst[n.id])
+        if n.id in self.names:
+            return ast.copy_location(ast.Name(id=self.names[n.id], ctx=n.ctx), n)
+        return n
+
+
+def _assigned_names(stmts):
+    out = set()
+    for st in stmts:
+        for n in ast.walk(st):
+            if isinstance(n, ast.Name) and isinstance(n.ctx, ast.Store):
+                out.add(n.id)
+    return out
+
+
+def _terminates(body):
+    if not body:
+        return False
+    last = body[-1]
+    if isinstance(last, (ast.Return, ast.Raise)):
+        return True
+    if isinstance(last, ast.If):
+        return _terminates(last.body) and _terminates(last.orelse)
+    return False
+
+
+def _assignify(stmts, target):
+    """turn a return-tree into assignments to `target`; None if the block is not a return-tree"""
+    out = []
+    for i, st in enumerate(stmts):
+        if isinstance(st, ast.Return):
+            if st.value is None:
+                return None
+            out.append(ast.Assign(targets=[ast.Name(id=target, ctx=ast.Store())], value=st.value, lineno=st.lineno))
+            return out
+        if isinstance(st, ast.Raise):
+            out.append(st)
+            return out
+        if isinstance(st, ast.If) and (_terminates(st.body) or _terminates(st.orelse)):
+            rest = stmts[i + 1:]
+            b = _assignify(st.body + ([] if _terminates(st.body) else rest), target)
+            o = _assignify(st.orelse + ([] if _terminates(st.orelse) else rest), target)
+            if b is None or o is None:
+                return None
+            out.append(ast.If(test=st.test, body=b, orelse=o, lineno=st.lineno))
+            return out
+        out.append(st)
+    return None     # fell off the end without a return
+
+
+def _helper_call(node, cls, spec):
+    """(method FunctionDef, call node) when `node` is `self.<method>(...)` of a non-kernel method of `cls`"""
+    if isinstance(node, ast.Call) and not node.keywords and isinstance(node.func, ast.Attribute) \
+            and isinstance(node.func.value, ast.Name) and node.func.value.id == "self":
+        path = "self." + node.func.attr
+        if path in spec.get("calls", {}) or path in spec.get("identity_calls", []) or path in spec.get("ctor", ["self.__class__"]):
+            return None
+        for m in cls.body:
+            if isinstance(m, ast.FunctionDef) and m.name == node.func.attr:
+                if any(isinstance(d, ast.Name) and d.id in ("property", "staticmethod", "classmethod") for d in m.decorator_list):
+                    return None
+                if m.args.vararg or m.args.kwarg or m.args.kwonlyargs or m.args.defaults:
+                    return None
+                if len(m.args.args) != len(node.args) + 1:
+                    return None
+                return m
+    return None
+
+
+def inline_helpers(cls, body, spec, counter, depth=0):
+    if depth > 6:
+        return body
+    out = []
+    changed = False
+    for st in body:
+        call, mode, target = None, None, None
+        if isinstance(st, ast.Return) and st.value is not None:
+            call, mode = st.value, "return"
+        elif isinstance(st, ast.Assign) and len(st.targets) == 1 and isinstance(st.targets[0], ast.Name):
+            call, mode, target = st.value, "assign", st.targets[0].id
+        m = _helper_call(call, cls, spec) if call is not None else None
+        if m is None:
+            if isinstance(st, ast.If):
+                b = inline_helpers(cls, st.body, spec, counter, depth)
+                o = inline_helpers(cls, st.orelse, spec, counter, depth)
+                st = ast.If(test=st.test, body=b, orelse=o, lineno=st.lineno)
+            out.append(st)
+            continue
+        counter[0] += 1
+        tag = f"h{counter[0]}_"
+        hbody = [x for x in m.body if not (isinstance(x, ast.Expr) and isinstance(x.value, ast.Constant))]   # drop the docstring
+        assigned = _assigned_names(hbody)
+        names, subst, pre = {}, {}, []
+        for prm, arg in zip(m.args.args[1:], call.args):
+            simple = _safe_path(arg) is not None and not isinstance(arg, ast.Call)
+            if simple and prm.arg not in assigned:
+                subst[prm.arg] = arg
+            else:
+                names[prm.arg] = tag + prm.arg
+                pre.append(ast.Assign(targets=[ast.Name(id=tag + prm.arg, ctx=ast.Store())], value=arg, lineno=st.lineno))
+        for nm in assigned:
+            if nm not in names:
+                names[nm] = tag + nm
+        ren = _Rename(names, subst)
+        hbody = [ren.visit(copy.deepcopy(x)) for x in hbody]
+        if mode == "assign":
+            hbody = _assignify(hbody, target)
+            if hbody is None:
+                out.append(st)
+                continue
+        for x in pre + hbody:
+            ast.fix_missing_locations(x)
+        out.extend(inline_helpers(cls, pre + hbody, spec, counter, depth + 1))
+        changed = True
+    return out
+
+
+def find_class(tree, qual):
+    parts = qual.split(".")
+    if len(parts) < 2:
+        return None
+    for n in tree.body:
+        if isinstance(n, ast.ClassDef) and n.name == parts[0]:
+            return n
+    return None
+
+
 def translate_kernel(repo, spec):
     path = os.path.join(repo, spec["file"])
     src = open(path).read()
@@ -500,6 +644,9 @@ def translate_kernel(repo, spec):
         env[py] = (lean_name, ty)
         params.append(f"({lean_name} : {ty})")
     body = list(fn.body)
+    cls = find_class(tree, spec["qual"])
+    if cls is not None:
+        body = inline_helpers(cls, body, spec, [0])
     if "stop_before" in spec:
         cut = None
         for i, stn in enumerate(body):
